@@ -169,6 +169,19 @@ def run(pid):
             pst[key] = pst.get(key, 0) + 1
             if v[0] == "differs":
                 loc[r["src"]] = v[1]
+        # the transcribed passes (spec/AstPasses.tla): the recorded ast after ReplaceMultiTargetAssign must be the predicted one;
+        # programs with tuple targets are taken first (drift is evidence only)
+        multi = [r for r in pool if r["src"] not in {x["src"] for x in chosen} and "," in r["src"] and " = " in r["src"]][: (120 if t == "quick" else 1500)]
+        acases = [dict(r["passes"], id=k) for k, r in enumerate(chosen + multi)]
+        averd, _ = tlc.run_cases("Trace_AstPasses", acases, sc, timeout=1800, heap="4g") if acases else ({}, {})
+        ast_ref = {"spec": "AstPasses.tla via Trace_AstPasses", "programs": len(acases), "verdicts": {}, "drift_samples": []}
+        for k, r in enumerate(chosen + multi):
+            v = averd[k]
+            ast_ref["verdicts"][v] = ast_ref["verdicts"].get(v, 0) + 1
+            if v.startswith("drift") and len(ast_ref["drift_samples"]) < 5:
+                ast_ref["drift_samples"].append({"src": r["src"], "verdict": v})
+        vlog("ast passes refinement", ast_ref["verdicts"])
+        cov["ast_passes_refinement"] = ast_ref
         cov["ast_passes"] = {"programs": len(chosen), "verdicts": pst,
                              "localised_failures": [{"src": s, "first_pass_changing_the_meaning": p} for s, p in list(loc.items())[:20]]}
         # the integer operators as a refinement model (spec/BitBlast.tla): model-checked against arithmetic, then the
